@@ -11,7 +11,7 @@ type C10 struct {
 	crashes, failed int
 }
 
-func init() { RegisterChecker("C10", func() Checker { return &C10{} }) }
+func init()                  { RegisterChecker("C10", func() Checker { return &C10{} }) }
 func (c *C10) ID() string    { return "C10" }
 func (c *C10) WantRaw() bool { return true }
 
